@@ -646,8 +646,8 @@ class Check(PropertyCheck):
             "1-4 flows of random types with every serialised field randomised, written with FlowWriter and read back; mut: "
             "flow files after byte-level and state-level mutations, some through real files with huge length prefixes. "
             "distinct = distinct case content; non-trivial = non-empty input.")
-    budget = {"quick": 6000, "thorough": 420000}
-    time_budget = {"quick": 20, "thorough": 560}
+    budget = {"quick": 7000, "thorough": 420000}
+    time_budget = {"quick": 22, "thorough": 330}
     fingerprints = ["mitmproxy.io.tnetstring:dumps", "mitmproxy.io.tnetstring:dump", "mitmproxy.io.tnetstring:_rdumpq",
                     "mitmproxy.io.tnetstring:load", "mitmproxy.io.tnetstring:parse", "mitmproxy.io.tnetstring:split",
                     "mitmproxy.io.tnetstring:pop", "mitmproxy.io.tnetstring:loads", "mitmproxy.io.io:FlowReader.stream",
@@ -666,10 +666,11 @@ class Check(PropertyCheck):
     def setup(self, tier):
         # the quick tier is cheaper without a process pool (fork + pickling cost more than the cases)
         self.parallel = tier == "thorough"
+        self.tier = tier
 
     def generate(self, rng, tier):
         yield from self.fixed_cases()
-        heavy = 1.0 if tier == "thorough" else 0.45        # share of flow-file cases (large protocol lines)
+        heavy = 1.0 if tier == "thorough" else 0.7        # share of flow-file cases (large protocol lines)
         while True:
             c = rng.random()
             seed = rng.getrandbits(48)
@@ -857,8 +858,12 @@ class Check(PropertyCheck):
     def impl(self, case):
         return self._remember(case, self._impl(case))
 
+    tier = "quick"
+
     def model_lines(self, case):
         k = case["k"]
+        if self.tier == "thorough" and k in ("flows", "mut") and case["specs"][0]["seed"] % 3:
+            return None       # whole flow files are large protocol lines: the thorough tier ties every third of them
         obs = self._obs(case)
         if k == "val":
             d = unhx(obs["dumps_hex"]) + unhx(obs["tail_hex"])
@@ -955,7 +960,7 @@ class Check(PropertyCheck):
             oc = obs["outcomes"]
             if oc[-1:] in ("v", "x"): out.append("mut:from_state:" + oc[-1])
         elif k == "flows":
-            for t in obs["types"]: out.append("flow:" + t)
+            for sp in case["specs"]: out.append("flow:" + sp["t"] + (":stock" if sp.get("plain") else ""))
         elif k == "deep":
             out.append("deep:%s:%s" % (obs["entry"], obs["res"][0] if obs["res"][0] == "ok" else obs["res"][1]))
         return out
